@@ -270,11 +270,30 @@ func VerifH_C09_ClientMultiGet() {
 // symWireEnum passes an arbitrary attribute text through the enumeration's
 // own UnmarshalText, as encoding/xml would; ok=false means the document is
 // refused by the decoder.
+// symEnumText: an attribute text: any opaque string, or len(sample)
+// arbitrary bytes (byte-level code such as case folding can only act on the
+// latter; the length is that of a valid word so that near misses exist; the
+// bytes are ASCII).
+func symEnumText(tag string, sample string) string {
+	// one choice per path for all attribute texts: all opaque or all bytes
+	if verifEnumForm < 0 {
+		verifEnumForm = vrt.Choose("attribute-text-form", 2)
+	}
+	if verifEnumForm == 0 {
+		return vrt.Str(tag)
+	}
+	// ASCII bytes: case folding of non-ASCII text goes through the Unicode
+	// tables, which is out of reach; non-ASCII texts are in the opaque form
+	return vrt.StrNIn(tag+"-bytes", len(sample), 0, 0x7f)
+}
+
+var verifEnumForm = -1
+
 func symWireTest(tag string) (filterTest, bool) {
 	if vrt.Choose(tag+"-present", 2) == 0 {
 		return "", true
 	}
-	s := vrt.Str(tag)
+	s := symEnumText(tag, "anyof")
 	var ft filterTest
 	err := ft.UnmarshalText([]byte(s))
 	valid := s == "anyof" || s == "allof"
@@ -286,7 +305,7 @@ func symWireMatchType(tag string) (matchType, bool) {
 	if vrt.Choose(tag+"-present", 2) == 0 {
 		return "", true
 	}
-	s := vrt.Str(tag)
+	s := symEnumText(tag, "equals")
 	var mt matchType
 	err := mt.UnmarshalText([]byte(s))
 	valid := s == "equals" || s == "contains" || s == "starts-with" || s == "ends-with"
@@ -298,7 +317,7 @@ func symWireNegate(tag string) (negateCondition, bool, bool) {
 	if vrt.Choose(tag+"-present", 2) == 0 {
 		return false, true, false
 	}
-	s := vrt.Str(tag)
+	s := symEnumText(tag, "yes")
 	var nc negateCondition
 	err := nc.UnmarshalText([]byte(s))
 	valid := s == "yes" || s == "no"
@@ -309,7 +328,18 @@ func symWireNegate(tag string) (negateCondition, bool, bool) {
 func symWireTextMatchEl() (*textMatch, bool, bool) {
 	mt, ok1 := symWireMatchType("match-type")
 	nc, ok2, want := symWireNegate("negate-condition")
-	return &textMatch{Text: vrt.Str("text"), MatchType: mt, NegateCondition: nc}, ok1 && ok2, want
+	// the match text: opaque, or in the bytes form one or two arbitrary
+	// printable ASCII bytes (blanks and XML metacharacters included)
+	text := ""
+	if verifEnumForm < 0 {
+		verifEnumForm = vrt.Choose("attribute-text-form", 2)
+	}
+	if verifEnumForm == 0 {
+		text = vrt.Str("text")
+	} else {
+		text = vrt.StrNIn("text-bytes", 1+vrt.Choose("text-len", 2), ' ', '~')
+	}
+	return &textMatch{Text: text, MatchType: mt, NegateCondition: nc}, ok1 && ok2, want
 }
 
 // VerifH_C09_ServerQuery: an RFC-conformant addressbook-query (as decoded
@@ -317,6 +347,7 @@ func symWireTextMatchEl() (*textMatch, bool, bool) {
 // the backend as the query it denotes.
 func VerifH_C09_ServerQuery() {
 	internal.VerifResetWire()
+	verifEnumForm = -1
 	internal.VerifCopyHook = verifCopy
 	var doc addressbookQuery
 	ok := true
